@@ -72,7 +72,8 @@ Leaves == IF Q THEN {"m", "moff", "mpin", "rate", "sotoff"} ELSE {"m", "moff", "
 \* histq, ts, clamp: functions the engine builds on code paths of their own
 \* selfnarrow: the plan minus a second selector of the same series over a narrower time range (same matchers, same
 \* enclosing function and grouping: the two selects must stay two selects)
-Wraps  == {"id", "abs", "sumby", "sumwo", "neg", "paren", "binl", "binr", "topk", "scal", "histq", "ts", "clamp", "selfnarrow"}
+\* wo3, by5, topkwo3: grouping lists of three and five labels, given out of order
+Wraps  == {"id", "abs", "sumby", "sumwo", "neg", "paren", "binl", "binr", "topk", "scal", "histq", "ts", "clamp", "selfnarrow", "wo3", "by5", "topkwo3"}
 LeafPlan(l) ==
   CASE l = "m"      -> <<Sel(<<Metric("m")>>)>>
     [] l = "moff"   -> <<SelOff(<<Metric("m")>>, 2)>>
@@ -88,6 +89,9 @@ Wrap(w, p) ==
     [] w = "abs"   -> Over(p, LAMBDA c : Fn("abs", <<c>>))
     [] w = "sumby" -> Over(p, LAMBDA c : Agg("sum", TRUE, <<"a">>, <<c>>))
     [] w = "sumwo" -> Over(p, LAMBDA c : Agg("max", FALSE, <<"b">>, <<c>>))
+    [] w = "wo3"   -> Over(p, LAMBDA c : Agg("min", FALSE, <<"z", "b", "c">>, <<c>>))
+    [] w = "by5"   -> Over(p, LAMBDA c : Agg("sum", TRUE, <<"z", "a", "q", "b", "c">>, <<c>>))
+    [] w = "topkwo3" -> Join(<<Num(1)>>, p, LAMBDA a, b : Agg("bottomk", FALSE, <<"z", "c", "b">>, <<a, b>>))
     [] w = "neg"   -> Over(p, LAMBDA c : NegN(c))
     [] w = "paren" -> Over(p, LAMBDA c : Paren(c))
     [] w = "binl"  -> Join(p, <<Sel(<<Metric("n")>>)>>, LAMBDA a, b : BinM("+", a, b, FALSE, "1:1", TRUE, <<"a">>, <<>>))
